@@ -52,7 +52,7 @@ def run_model(prop, lines):
 
 def strip_oracle(line):
     """the part of a result line that is compared with the model: oracle verdict tokens removed"""
-    toks = [t for t in line.split(" ") if not t.startswith("ORACLE_")]
+    toks = [t for t in line.split(" ") if not (t.startswith("ORACLE_") or t.startswith("NOTE_"))]
     return " ".join(toks)
 
 
